@@ -666,7 +666,15 @@ def gen_limit_wiring(info):
             found = True
         if not found:
             problems.append(f"{name}: RpcService::new not found")
-    # server.rs has a second RpcService::new on the HTTP path using a local
+    # per-connection subscription cap: every `BoundedSubscriptions::new(..)` site
+    sites_subs = []
+    for name, src in (("server.rs:TowerService:ws", srv), ("ws.rs:connect", ws)):
+        ms = list(re.finditer(r"BoundedSubscriptions::new\(\s*([^()]*?)\s*,?\s*\)", src))
+        if not ms:
+            problems.append(f"{name}: BoundedSubscriptions::new not found")
+        for m in ms:
+            mm = re.search(r"(max_\w+)$", m.group(1).strip())
+            sites_subs.append((name + ":BoundedSubscriptions::new", mm.group(1) if mm else "?"))
     ok = not problems
 
     def lf(f):
@@ -683,9 +691,12 @@ def gen_limit_wiring(info):
     L.append("/-- every site where the limit on *responses* is handed to the RPC service -/")
     L.append("def responseLimitSites : List (String × LimitField) := [\n" + ",\n".join(f'  ("{n}", {lf(f)})' for n, f in sites_resp) + "\n]")
     L.append("")
+    L.append("/-- every site where the per-connection subscription cap is configured: (site, uses max_subscriptions_per_connection) -/")
+    L.append("def subscriptionCapSites : List (String × Bool) := [\n" + ",\n".join(f'  ("{n}", {"true" if f == "max_subscriptions_per_connection" else "false"})' for n, f in sites_subs) + "\n]")
+    L.append("")
     L.append("end Jrpc.Gen")
     write_if_changed(os.path.join(GEN, "LimitWiring.lean"), "\n".join(L) + "\n")
-    info["LimitWiring"] = {"source": "server/src/server.rs, server/src/transport/ws.rs, server/src/transport/http.rs", "ok": ok, "problems": problems, "request_sites": sites_req, "response_sites": sites_resp}
+    info["LimitWiring"] = {"source": "server/src/server.rs, server/src/transport/ws.rs, server/src/transport/http.rs", "ok": ok, "problems": problems, "request_sites": sites_req, "response_sites": sites_resp, "subscription_cap_sites": sites_subs}
 
 
 # ------------------------------------------------------------------------------------------------
